@@ -194,7 +194,10 @@ Verdict check_alloc(const Plan& plan, Stats& st) {
         if (!g.abort_run) for (int k = 0; k < 8; k++) if (h[k].live && h[k].size) {
             uint32_t s;
             if (!inside_live_backend_block(h[k].p, h[k].size, &s)) { fail(i, "live block h" + std::to_string(k) + " is no longer backed by a live backend block after this call"); break; }
-            if (!check_content(h[k], h[k].p, h[k].size)) { fail(i, "contents of live block h" + std::to_string(k) + " changed during a call on another block"); break; }
+            // full comparison for the block the call was about, head and tail (256 bytes each) for the others
+            bool same = (k == ha || h[k].size <= 512) ? check_content(h[k], h[k].p, h[k].size)
+                                                      : (check_content(h[k], h[k].p, 256) && [&] { Handle t = h[k]; size_t off = t.size - 256; for (size_t z = 0; z < 256; z++) if (t.p[off + z] != (unsigned char)(t.pat + (unsigned char)(off + z))) return false; return true; }());
+            if (!same) { fail(i, "contents of live block h" + std::to_string(k) + " changed during a call on another block"); break; }
         }
         if (!g.violations.empty()) break;
     }
